@@ -466,6 +466,16 @@ impl BudgetEnforcer {
         }
     }
 
+    /// The alias observed last is about to be expanded: the replayed node is observed as well and
+    /// takes the alias's place in the enclosing mapping, so the key/value phase recorded for the
+    /// alias token itself is taken back (otherwise the node would count twice and a later `<<`
+    /// key would be taken for a value).
+    pub(crate) fn alias_will_be_replayed(&mut self) {
+        if let Some(ContainerState::Mapping { expecting_key, .. }) = self.containers.last_mut() {
+            *expecting_key = !*expecting_key;
+        }
+    }
+
     fn entering_container(&mut self) -> bool {
         if let Some(ContainerState::Mapping { expecting_key, .. }) = self.containers.last_mut() {
             if *expecting_key {
